@@ -291,8 +291,10 @@ impl<S> Env<S> {
         S: WaitForSignals,
     {
         let result = self.system.wait_for_signals().await;
-        for signal in result.iter().copied() {
-            self.traps.catch_signal(signal);
+        if result.claim() {
+            for signal in result.iter().copied() {
+                self.traps.catch_signal(signal);
+            }
         }
         result
     }
@@ -345,8 +347,10 @@ impl<S> Env<S> {
 
         let signals = poll(&self.system);
         if let Some(signals) = &signals {
-            for signal in signals.iter().copied() {
-                self.traps.catch_signal(signal);
+            if signals.claim() {
+                for signal in signals.iter().copied() {
+                    self.traps.catch_signal(signal);
+                }
             }
         }
         signals
